@@ -27,16 +27,22 @@ def main():
     pid = sys.argv[1].upper()
     tier = 'quick'
     check_id = pid
+    only = None
     args = sys.argv[2:]
     i = 0
     while i < len(args):
         if args[i] == '--check':
             check_id = args[i + 1].upper()
             i += 2
+        elif args[i] == '--only':
+            only = args[i + 1].split(',')
+            i += 2
         else:
             tier = args[i]
             i += 1
     for d in sorted(glob.glob(os.path.join(HERE, 'seeded', pid + '-*'))):
+        if only and os.path.basename(d).split('-')[1] not in only:
+            continue
         patch = os.path.join(d, 'patch.diff')
         rc, keys, summary = run(check_id, tier, patch)
         meta_path = os.path.join(d, 'meta.json')
